@@ -216,6 +216,9 @@ func (s *DeadCodeServiceImpl) convertToFunctionDeadCode(result *analyzer.DeadCod
 	var findings []domain.DeadCodeFinding
 
 	for _, analyzerFinding := range result.Findings {
+		if !detectionEnabled(analyzerFinding.Reason, req) {
+			continue
+		}
 		finding := domain.DeadCodeFinding{
 			Location: domain.DeadCodeLocation{
 				FilePath:  analyzerFinding.FilePath,
@@ -246,6 +249,25 @@ func (s *DeadCodeServiceImpl) convertToFunctionDeadCode(result *analyzer.DeadCod
 	functionResult.CalculateSeverityCounts()
 
 	return functionResult
+}
+
+// detectionEnabled reports whether the request's detection options keep findings of
+// the given reason (an option that is not set counts as enabled)
+func detectionEnabled(reason analyzer.DeadCodeReason, req domain.DeadCodeRequest) bool {
+	switch reason {
+	case analyzer.ReasonUnreachableAfterReturn:
+		return domain.BoolValue(req.DetectAfterReturn, true)
+	case analyzer.ReasonUnreachableAfterBreak:
+		return domain.BoolValue(req.DetectAfterBreak, true)
+	case analyzer.ReasonUnreachableAfterContinue:
+		return domain.BoolValue(req.DetectAfterContinue, true)
+	case analyzer.ReasonUnreachableAfterRaise:
+		return domain.BoolValue(req.DetectAfterRaise, true)
+	case analyzer.ReasonUnreachableBranch:
+		return domain.BoolValue(req.DetectUnreachableBranches, true)
+	default:
+		return true
+	}
 }
 
 // convertSeverity converts analyzer severity to domain severity
